@@ -25,13 +25,7 @@ ENUM = {"state": "DeviceState", "mode": "ThermostatMode", "fan_level": "Thermost
 
 
 def flat(pc: List[T.Term]) -> List[T.Term]:
-    out: List[T.Term] = []
-    for g in pc:
-        if isinstance(g, tuple) and g and g[0] == "and":
-            out.extend(g[1:])
-        else:
-            out.append(g)
-    return out
+    return F.flat_pc(list(pc))      # conjuncts, closed under unit resolution
 
 
 def value_text(v: T.Term, prog: Program, name: str) -> Optional[T.Term]:
